@@ -143,6 +143,18 @@ func vfC11Serve(dir string) (filesHealthy string, reposHealthy string, otherRepo
 			otherRepos++
 		}
 	}
+	// List with a query that needs the posting lists (indexData.List runs Search for it)
+	rl2, err := ss.List(ctx, &query.Substring{Pattern: "needle"}, nil)
+	if err != nil {
+		return "", "", 0, 0, 0, fmt.Errorf("list: %w", err)
+	}
+	crashes += rl2.Crashes
+	reposHealthy += "#substr:"
+	for _, e := range rl2.Repos {
+		if e.Repository.Name == "healthy" {
+			reposHealthy += fmt.Sprintf("%s|%d|%d;", e.Repository.Name, e.Repository.ID, e.Stats.Documents)
+		}
+	}
 	return
 }
 
@@ -414,6 +426,8 @@ func (l *lockedWriter) Write(p []byte) (int, error) {
 	return l.w.Write(p)
 }
 
+const vfC11Dense = 600
+
 func TestVerifC11(t *testing.T) {
 	if os.Getenv("VERIF_C11_BATCH") != "" {
 		t.Skip("parent only")
@@ -446,12 +460,25 @@ func TestVerifC11(t *testing.T) {
 	for bi := 0; bi < nb; bi++ {
 		base := bases[bi]
 		if exhaustive && len(base) <= 4096 {
+			// ALL truncations; ALL single-bit flips of the last vfC11Dense bytes (TOC, trailer and the section tables in
+			// front of them: the part of the file the reader trusts most); of the remaining bytes every bit when
+			// VERIF_C11_ALL=1 (51k files, ~45 min), otherwise n seeded (byte, bit) pairs
 			for p := 0; p < len(base); p++ {
 				add(vfC11Variant{Base: bi, Kind: "trunc", Pos: p})
 			}
+			dense := min(len(base), vfC11Dense)
+			all := os.Getenv("VERIF_C11_ALL") == "1"
 			for p := 0; p < len(base); p++ {
+				if !all && p < len(base)-dense {
+					continue
+				}
 				for b := 0; b < 8; b++ {
 					add(vfC11Variant{Base: bi, Kind: "flip", Pos: p, Bit: b})
+				}
+			}
+			if !all && len(base) > dense {
+				for i := 0; i < n; i++ {
+					add(vfC11Variant{Base: bi, Kind: "flip", Pos: r.Intn(len(base) - dense), Bit: r.Intn(8)})
 				}
 			}
 		} else {
